@@ -6,10 +6,10 @@
 package c06
 
 import (
-	"errors"
 	"context"
 	"crypto/sha256"
 	"encoding/hex"
+	"errors"
 	"fmt"
 	"os"
 	"path/filepath"
